@@ -214,6 +214,26 @@ def gen(rng, cls=None, probe=None, featureless=False):
                 for n in range(rng.randint(1, 2)):
                     src = rng.choice(kids)
                     d['local'].append([t, 'l%d' % n, src, src if rng.random() < 0.7 else rng.choice(kids)])
+    if nested and rng.random() < 0.4:
+        # a chain of `initial` children three or four levels deep under one top state: its feature states are
+        # entered through the initial descent when a transition names the top state (or a level above them)
+        top = rng.choice([s for s in states if SEP not in s['name']])
+        kids_of_top = [s for s in states if s['name'].startswith(top['name'] + SEP)]
+        if not kids_of_top:
+            name = top['name']
+            for k in ['b', 'c', 'd'][:rng.randint(2, 3)]:
+                parent = next(s for s in states if s['name'] == name)
+                name = name + SEP + k
+                c = {'name': name, 'n_enter': rng.randint(1, 2), 'n_exit': rng.randint(1, 2)}
+                c.update(gen_state_args(rng, d['feats'], p_args))
+                parent['initial'] = k
+                states.insert(states.index(parent) + 1, c)
+                if rng.random() < 0.4:
+                    sib = {'name': parent['name'] + SEP + 'x', 'n_enter': 1, 'n_exit': 1}
+                    sib.update(gen_state_args(rng, d['feats'], p_args))
+                    states.append(sib)
+            # keep parents before children
+            states.sort(key=lambda s: tops.index(s['name'].split(SEP)[0]))
     if not featureless:
         for s in states:
             if rng.random() < 0.25:
@@ -240,6 +260,14 @@ def gen(rng, cls=None, probe=None, featureless=False):
     d['states'] = states
     names = [s['name'] for s in states]
     d['initial'] = rng.choice(tops)
+    if not featureless:
+        # how a state is declared: inside the states list (default), later by its FULL-PATH name with the feature
+        # arguments as keyword arguments (`add_states('P_c', tags=..., retries=...)`), or later inside the
+        # parent's scope (`with machine('P'): machine.add_states('c', ...)`) — all three must behave alike
+        for s in states:
+            leaf = not any(o['name'].startswith(s['name'] + SEP) for o in states)
+            if leaf and s['name'] != d['initial'] and rng.random() < 0.2:
+                s['decl'] = rng.choice(['path', 'path', 'scoped']) if SEP in s['name'] else 'path'
     trans = []
     events = ['e%d' % i for i in range(rng.randint(1, 4))]
     retry_states = [s['name'] for s in states if s.get('retries')]
@@ -540,9 +568,19 @@ def realise(d):
 
     defs = []
     by_name = {}
+    # states declared after construction: by full-path string + keyword arguments, or inside the parent's scope
+    blocked = set([d['initial']] + [l[0] + SEP + x for l in d.get('local', []) for x in (l[2], l[3])])
+    late = []
     for s in d['states']:
         o = sdef(s)
         by_name[s['name']] = o
+        par = s['name'].rsplit(SEP, 1)[0] if SEP in s['name'] else None
+        is_initial = par is not None and next(x for x in d['states'] if x['name'] == par).get('initial') == o['name']
+        has_kids = any(x['name'].startswith(s['name'] + SEP) for x in d['states'])
+        if s.get('decl') and s['name'] not in blocked and not is_initial and not has_kids and not s.get('conv') \
+                and (par is None or is_nested(d['cls'])):
+            late.append((s, o, par))
+            continue
         if SEP in s['name']:
             by_name[s['name'].rsplit(SEP, 1)[0]].setdefault('children', []).append(o)
         else:
@@ -558,9 +596,21 @@ def realise(d):
         kwargs['on_exception'] = on_exc
     if any(s.get('n_final') for s in d['states']):
         kwargs['on_final'] = make_recorder(log, models, 'finalCb', len(d['states']), 0)
-    machine = Custom(model=models, states=defs, transitions=[list(t) for t in d['transitions']],
+    machine = Custom(model=models, states=defs, transitions=None if late else [list(t) for t in d['transitions']],
                      initial=d['initial'], auto_transitions=d['auto'],
                      ignore_invalid_triggers=d['ignore'], send_event=d['send_event'], **kwargs)
+    for s, o, par in late:
+        kw = {k: v for k, v in o.items() if k != 'name'}
+        if s['decl'] == 'scoped' and par is not None:
+            import contextlib
+            with contextlib.ExitStack() as stack:
+                for level in par.split(SEP):        # one scope per level (machine('A_b') would only enter 'A')
+                    stack.enter_context(machine(level))
+                machine.add_states(o['name'], **kw)
+        else:
+            machine.add_states(s['name'], **kw)         # full-path name, feature arguments as keywords
+    if late:
+        machine.add_transitions([list(t) for t in d['transitions']])
     return machine, models, log
 
 
@@ -778,9 +828,9 @@ def groups_of(d, run):
         for it in st['items']:
             if it[0] == 'op_enter':
                 src = resolve_source(d, it[3], names[pre[it[2]]] if 0 <= pre[it[2]] < unknown else None)
-                g.append((0, it[1], it[2], idx.get(src, unknown)))
+                g.append((0, it[1] if it[1] >= 0 else unknown, it[2], idx.get(src, unknown)))
             elif it[0] == 'op_exit':
-                g.append((1, it[1], it[2], 0))
+                g.append((1, it[1] if it[1] >= 0 else unknown, it[2], 0))
             elif it[0] == 'exitRaise' and g and g[-1][0] == 1:
                 g[-1] = (2,) + g[-1][1:]
             elif it[0] == 'enterRaise' and g and g[-1][0] == 0:
@@ -1144,6 +1194,12 @@ def oracle_steps(d, run):
             fails.append(('unexpected-result', dict(where, result=res)))
             break
         segs = segments(d, step)
+        if any(seg['op'] is not None and seg['op'][1] < 0 for seg in segs):
+            fails.append(('scoped-name', dict(where, problem='the engine entered/exited a state under a scoped name '
+                                              'that is no state of the machine (the features read self.name: Error '
+                                              'asks get_triggers(self.name), Retry compares it with the source)')))
+            pre = [s for s, _h in step['post']]
+            continue
         if segs and segs[0]['op'] is None:
             fails.append(('shape', dict(where, problem='callbacks outside any enter/exit')))
             pre = [s for s, _h in step['post']]
@@ -1376,7 +1432,7 @@ def shrink_steps(case):
                 c = copy.deepcopy(d)
                 c['states'][i][key] = 1
                 yield mk(c)
-        for key in ('final', 'n_final', 'conv'):
+        for key in ('final', 'n_final', 'conv', 'decl'):
             if key in s:
                 c = copy.deepcopy(d)
                 del c['states'][i][key]
